@@ -321,7 +321,7 @@ pub fn dump(args: &[String]) -> i32 {
         // endings are finite far more often than positions with pieces, so taking the first finite
         // candidates would look at little else.  Buckets: men count x pawn one step from promotion x
         // pieces present x many tactical edges.
-        let mut buckets: BTreeMap<(u32, bool, bool, bool), Vec<Board>> = BTreeMap::new();
+        let mut buckets: BTreeMap<(u32, bool, bool, bool, bool), Vec<Board>> = BTreeMap::new();
         let mut n = 0usize;
         while n < pool_size {
             for b in candidates(&mg, &mut rng, 64, max_men) {
@@ -336,7 +336,10 @@ pub fn dump(args: &[String]) -> i32 {
                         let promo = (48..56).any(|s| cs[s] == 1) || (8..16).any(|s| cs[s] == 7);
                         let piece = cs.iter().any(|&c| c != 0 && c != 1 && c != 7 && c != 6 && c != 12);
                         let qedges: usize = g.nodes.iter().map(|x| x.qi.len()).sum();
-                        let key = (men(&b).min(8) / 2, promo, piece, qedges >= 30);
+                        // a move after which the opponent has no move at all (mate or stalemate): terminal values right
+                        // below the root, e.g. a queen promotion that stalemates while an under-promotion wins
+                        let ends = g.nodes[0].moves.iter().any(|m| mg.generate_moves(&b.clone_with_move(m)).is_empty());
+                        let key = (men(&b).min(8) / 2, promo, piece, qedges >= 30, ends);
                         buckets.entry(key).or_default().push(b);
                     }
                     Ok(None) => skipped_infinite += 1,
@@ -345,7 +348,7 @@ pub fn dump(args: &[String]) -> i32 {
             }
         }
         // round-robin over the buckets, rarest first
-        let mut keys: Vec<(u32, bool, bool, bool)> = buckets.keys().cloned().collect();
+        let mut keys: Vec<(u32, bool, bool, bool, bool)> = buckets.keys().cloned().collect();
         keys.sort_by_key(|k| buckets[k].len());
         let mut picked: Vec<Board> = vec![];
         let mut round = 0usize;
@@ -880,18 +883,28 @@ pub fn window(args: &[String]) -> i32 {
         }
     }
     let inf = 32767i32;
+    let mut excluded_deeper = 0u64;
     let mut s = Searcher::new();
     for b in boards.iter().take(want.max(boards.len().min(want))) {
         if mg.generate_moves(b).is_empty() {
             continue;
         }
         for d in 1..=maxdepth {
+            // The property compares with the depth-limited minimax value only for searches in which no table entry
+            // searched DEEPER than a node requires was reused (from depth 4 on the same position can be reached with
+            // different remaining depths inside one search).  Such runs are excluded, as C05 prescribes.
             let full = catch_unwind(AssertUnwindSafe(|| {
                 s.verif_reset();
-                s.verif_search_window(b, d, -inf, inf)
+                crate::search::verif::reset_counters();
+                let v = s.verif_search_window(b, d, -inf, inf);
+                (v, crate::search::verif::counters().1)
             }));
             let v = match full {
-                Ok(v) => v,
+                Ok((_, deeper)) if deeper > 0 => {
+                    excluded_deeper += 1;
+                    continue;
+                }
+                Ok((v, _)) => v,
                 Err(_) => {
                     writeln!(w, "{}", json!({"ev":"window","fen":proj::project(b),"pos":proj::project_struct(b),"d":d,"panic":true})).ok();
                     s = Searcher::new();
@@ -915,16 +928,20 @@ pub fn window(args: &[String]) -> i32 {
                 }
                 match catch_unwind(AssertUnwindSafe(|| {
                     s.verif_reset();
-                    s.verif_search_window(b, d, a, bb)
+                    crate::search::verif::reset_counters();
+                    let r = s.verif_search_window(b, d, a, bb);
+                    (r, crate::search::verif::counters().1)
                 })) {
-                    Ok(r) => probes.push(json!([a, bb, clamp(r)])),
+                    Ok((_, deeper)) if deeper > 0 => excluded_deeper += 1,
+                    Ok((r, _)) => probes.push(json!([a, bb, clamp(r)])),
                     Err(_) => {
                         probes.push(json!([a, bb, 99999999]));
                         s = Searcher::new();
                     }
                 }
             }
-            writeln!(w, "{}", json!({"ev":"window","fen":proj::project(b),"pos":proj::project_struct(b),"d":d,"v":v,"probes":probes})).ok();
+            writeln!(w, "{}", json!({"ev":"window","fen":proj::project(b),"pos":proj::project_struct(b),"d":d,"v":v,"probes":probes,
+                                     "excluded_deeper_entry_reused":excluded_deeper})).ok();
         }
     }
     w.flush().ok();
